@@ -76,13 +76,15 @@ _SUBJECTS = [b"=?utf-8?q?Caf=C3=A9?=", b"=?bogus-charset?q?x?=", b"=?utf-8?q?=FF
              b"folded\n subject\n\tline", b"S" * 5000, b"=?utf-8?x?unknown-encoding?=", b"=??q??=", b"=?utf-8*en?q?lang?=", b"tab\there", b""]
 ENC_MBOX = b"".join(b"From s%d@example Thu Jan  1 00:00:%02d 2004\nFrom: s%d@example\n" % (i, i, i) + (b"Subject: " + sub + b"\n" if sub else b"") + b"\nbody %d\n\n" % i for i, sub in enumerate(_SUBJECTS))
 ENC_MAILDIR = {b"cur": {b"%d:2,S" % i: b"From: s%d@example\n" % i + (b"Subject: " + sub + b"\n" if sub else b"") + b"\nbody %d\n" % i for i, sub in enumerate(_SUBJECTS)}, b"new": {}, b"tmp": {}}
-EDGE_SELECTORS += [b"/enc.mbox", b"/encmd"] + [b"/enc.mbox|/MBOX-MESSAGE/%d" % (i + 1) for i in range(len(_SUBJECTS))] + [b"/encmd|/MAILDIR-MESSAGE/%d" % (i + 1) for i in range(len(_SUBJECTS))]
+EDGE_SELECTORS += [b"/u.zip", b"/u.zip/drink", b"/u.zip/sub/up", b"/u.zip/caf\xc3\xa9.txt", b"/enc.mbox", b"/encmd"] + [b"/enc.mbox|/MBOX-MESSAGE/%d" % (i + 1) for i in range(len(_SUBJECTS))] + [b"/encmd|/MAILDIR-MESSAGE/%d" % (i + 1) for i in range(len(_SUBJECTS))]
 
 
 def _spec_a():
     spec = worlds.standard_spec(full=True)
     spec[b"enc.mbox"] = ENC_MBOX
     spec[b"encmd"] = ENC_MAILDIR
+    # an archive whose link members point at a member with a non-ASCII name
+    spec[b"u.zip"] = worlds.make_zip([("caf\u00e9.txt", b"un caf\xc3\xa9\n"), ("sub/x.txt", b"x\n")], symlinks=[("drink", "caf\u00e9.txt"), ("sub/up", "../caf\u00e9.txt")])
     return spec
 
 
@@ -261,7 +263,7 @@ DEPLOY_MODES = {
 }
 DEPLOY_PROTOS = ("gopher", "gopherp", "gopherp_dir", "http", "wap", "spartan", "gemini", "sgopher", "https")
 DEPLOY_SELS = (b"/", b"/a", b"/f.txt", b"/m.mbox", b"/m.mbox|/MBOX-MESSAGE/1", b"/md", b"/md|/MAILDIR-MESSAGE/1", b"/gm", b"/h.html", b"/t.html.tal", b"/z.zip", b"/z.zip/sub/g.txt",
-               b"/nope", b"/../x", b"/caf\xe9", b"URL:http://x/", b"/enc.mbox", b"/x.gophermap", b"/a/deep/d.txt", b"/noext", b"/empty.txt", b"/p.pyg",
+               b"/nope", b"/../x", b"/caf\xe9", b"URL:http://x/", b"/enc.mbox", b"/x.gophermap", b"/a/deep/d.txt", b"/noext", b"/empty.txt", b"/p.pyg", b"/u.zip", b"/u.zip/drink", b"/u.zip/sub/up", b"/u.zip/sub",
                # these need programs from outside the document root: not asked of a jailed server
                b"/c.txt.gz", b"/s.sh")
 NEEDS_OUTSIDE = (b"/c.txt.gz", b"/s.sh")
